@@ -14,6 +14,24 @@ class HasSqrt (α : Type) where
 
 instance : HasSqrt Float := ⟨Float.sqrt⟩
 
+/-- The libm functions a translated function may call.  Uninterpreted in theorems; at run time `Float`'s own
+(C libm — NOT bit-compatible with Go's pure-Go `math` package, so generated definitions that use them are
+excluded from the bit-for-bit translation validation and are tied by theorems only). -/
+class HasLibm (α : Type) where
+  cos : α → α
+  sin : α → α
+  tan : α → α
+  acos : α → α
+  asin : α → α
+  atan : α → α
+  exp : α → α
+  log : α → α
+  pow : α → α → α
+  atan2 : α → α → α
+
+instance : HasLibm Float := ⟨Float.cos, Float.sin, Float.tan, Float.acos, Float.asin, Float.atan, Float.exp, Float.log,
+  Float.pow, Float.atan2⟩
+
 section
 variable {α : Type} [Sub α] [LT α] [DecidableLT α] [OfNat α 0]
 
